@@ -407,3 +407,75 @@ def run_case(case: Dict[str, Any]) -> Outcome:
 
 SELFTEST_CASES = [{"decl": {"a": {"i": "5"}}, "extra": {"b": {"b": "/w=="}}, "codec": "json", "plan": ["retry"]},
                   {"part": "kicker_histories", "ops": [{"op": "new_kicker", "task": 0}, {"op": "kiq", "k": 0, "arg": 1}]}]
+
+
+# ---------------------------------------------------------------- one kicker used for many sends, in a tight loop
+#
+# kiq(), with_labels(), with_labels(), kiq() ... on ONE kicker object without anything else going on in between (no
+# bookkeeping of the harness between the calls): what each send carries is what the kicker held at that moment.
+
+
+def tight_cases() -> Any:
+    small = st.dictionaries(st.sampled_from(["queue", "extra", "prio", "z", "blob"]), VAL, min_size=1, max_size=2)
+    op = st.one_of(st.just(["kiq"]), st.just(["kiq"]), small.map(lambda l: ["wl", l]))
+    return st.fixed_dictionaries({"tight": st.just(True), "decl": LABELS, "seq": st.lists(op, min_size=2, max_size=10)})
+
+
+def run_tight(c: Dict[str, Any]) -> Outcome:
+    out = Outcome()
+    out.clauses_checked = ["C09.d"]
+    decl = {k: dec(v) for k, v in c["decl"].items()}
+    seq = [(o[0], {k: dec(v) for k, v in o[1].items()} if len(o) > 1 else None) for o in c["seq"]]
+
+    async def go() -> Any:
+        b = QB()
+
+        def t() -> None:
+            return None
+
+        t.__module__ = __name__
+        task = b.register_task(t, task_name="t", **decl)
+        k = task.kicker()
+        for kind, labels in seq:            # nothing but the calls themselves
+            if kind == "kiq":
+                await k.kiq()
+            else:
+                k = k.with_labels(**labels)
+        return b.all, b.formatter
+
+    sent, fmt = asyncio.run(go())
+    cur = dict(decl)
+    expect = []
+    for kind, labels in seq:
+        if kind == "kiq":
+            expect.append(dict(cur))
+        else:
+            cur.update(labels)
+    if len(sent) != len(expect):
+        out.add("C09.d", f"{len(sent)} messages sent for {len(expect)} kiq() calls")
+    for n, (m, want) in enumerate(zip(sent, expect)):
+        tm = fmt.loads(m.message)
+        tm.parse_labels()
+        got = dict(tm.labels)
+        bad = [key for key in set(want) | set(got) if key not in want or key not in got or not same(got[key], want[key])]
+        if bad:
+            key = sorted(bad)[0]
+            out.add("C09.d", f"send #{n + 1} of one kicker (history {[o[0] for o in c['seq']]}): label {key!r} arrived as {got.get(key, '<missing>')!r}, "
+                             f"the kicker held {want.get(key, '<absent>')!r} at that moment")
+            break
+    nk = sum(1 for kind, _ in seq if kind == "kiq")
+    out.nontrivial = bool(nk >= 2 and any(kind == "wl" for kind, _ in seq))
+    out.classes = ["tight_sequence"] + (["two_relabels_between_sends"] if any(seq[i][0] == "wl" and seq[i + 1][0] == "wl" for i in range(len(seq) - 1)) else [])
+    return out
+
+
+_base_parts09, _base_run09 = parts, run_case
+
+
+def parts(tier: str) -> List[Part]:  # type: ignore[no-redef]
+    nn = 4000 if tier == "thorough" else 400
+    return _base_parts09(tier) + [Part("tight_sequences", "given", shards=2, examples=nn, strategy=tight_cases, soft_deadline_s=900 if tier == "thorough" else 100)]
+
+
+def run_case(case: Dict[str, Any]) -> Outcome:  # type: ignore[no-redef]
+    return run_tight(case) if case.get("tight") else _base_run09(case)
